@@ -703,7 +703,8 @@ def _mutual_info_score(reference_indices, estimated_indices, contingency=None):
         contingency_nm * (log_contingency_nm - np.log(contingency_sum))
         + contingency_nm * log_outer
     )
-    return mi.sum()
+    # mutual information is non-negative; clip rounding noise (as scikit-learn does)
+    return np.clip(mi.sum(), 0.0, None)
 
 
 def _entropy(labels):
